@@ -271,7 +271,8 @@ def _reads_before_binding(r, sites):
 def check(program, modules):
     out, n_fn = [], 0
     for mname in modules:
-        m = program.modules.get(mname)
+        m = program.full(mname) if hasattr(program, "full") else \
+            program.modules.get(mname)
         if m is None:
             continue
         program.module(mname)
